@@ -148,6 +148,15 @@ impl System for Sys {
             for o in history {
                 Sys::apply(&mut t, o);
             }
+            // every query once BEFORE the call on this same instance (a lookup cache filled
+            // here must not survive the call)
+            for k in self.keys.iter().chain(["zz"].iter()) {
+                let _ = t.get_message(k);
+                let _ = t.has_message(k);
+            }
+            let _ = t.get_title().to_string();
+            let _ = t.is_dirty();
+            let _ = t.get_entries().len();
             Sys::apply(&mut t, op);
             let mut d = self.observe(&t, &model);
             // storing a looked-up message back changes nothing (but the dirty flag)
